@@ -41,9 +41,17 @@ def R(ids, tok=8):
     return {"mt": "Range", "ids": ids, "tok": tok, "quals": [], "children": [], "ctype": 0, "val": None}
 
 
+def REL(ids, tok=8):
+    return {"mt": "RelationshipElement", "ids": ids, "tok": tok, "quals": [], "children": [], "ctype": 0, "val": None}
+
+
+def AREL(ids, tok=8):
+    return {"mt": "AnnotatedRelationshipElement", "ids": ids, "tok": tok, "quals": [], "children": [], "ctype": 0, "val": None}
+
+
 def fixture():
-    sm1 = {"k": "sm", "id": SM1, "ids": "Sm1", "tok": 1, "quals": [("q1", 1)], "elems": [
-        P("p1", 1, [("q1", 5)]),
+    sm1 = {"k": "sm", "id": SM1, "ids": "Sm1", "tok": 1, "quals": [("q1", 1), ("q2", 2)], "elems": [
+        P("p1", 1, [("q1", 5), ("q2", 6)]), REL("r1"), AREL("r2"),
         C("c1", [P("p2", 3), C("c2", [P("p3", 3)])], quals=[("q2", 6)]),
         L("l1", [P(None, 5)]),
         F("f1", None), F("f2", "/aasx/x.txt"), F("f3", "http://ext/x.txt"), F("f4", "/aasx/missing.txt"),
@@ -71,6 +79,9 @@ def id_variants(arg):
     yield "len1", "A"
     yield "len5", "QUJDR"
     yield "nonutf8", base64.urlsafe_b64encode(b"\xff\xfe\x80").decode()
+    yield "nonascii", "ä"
+    yield "nonascii-mixed", b64(v)[:4] + "é" + b64(v)[4:]
+    yield "ctrlchar", base64.urlsafe_b64encode(b"a\x01b").decode()
     yield "stdalphabet", b64(">>>???").replace("-", "+").replace("_", "/").replace("/", "_")
     if arg == "sm":
         yield "dangling", b64("urn:dangling")
@@ -82,7 +93,8 @@ PATHS = [("valid", "p1"), ("nested", "c1.c2.p3"), ("unknown", "zz"), ("nested-un
          ("through-leaf", "p1.x"), ("list", "l1"), ("list-index", "l1.0"), ("list-name", "l1.x"),
          ("bad-syntax", "1a"), ("empty-seg", "c1..p2"), ("toolong", "a" * 200), ("deep", ".".join(["c1"] * 30)),
          ("file-none", "f1"), ("file-int", "f2"), ("file-ext", "f3"), ("file-missing", "f4"), ("blob", "b1"),
-         ("blob-none", "b2"), ("coll", "c1"), ("nonascii", "pä"), ("underscore", "_a"), ("dash", "a-b")]
+         ("blob-none", "b2"), ("coll", "c1"), ("nonascii", "pä"), ("underscore", "_a"), ("dash", "a-b"),
+         ("rel", "r1"), ("arel", "r2")]
 
 ACCEPTS = [(None, "json"), ("application/json", "json"), ("application/xml", "xml"), ("text/xml", "textxml"),
            ("*/*", "json"), ("image/png", "none"), ("text/*", "textxml"), ("application/*;q=0.1, text/xml", "textxml"),
@@ -147,6 +159,9 @@ VALUES = [  # (label, abstract value)
     ("qual-odd", {"k": "qual", "type": QTYPES[2], "val": 4}),
     ("ref-new", {"k": "ref", "id": SM2}), ("ref-existing", {"k": "ref", "id": SM1}),
     ("ai", {"k": "ai", "tok": 5}),
+    # sub-/superclass pairs for PUT over a stored element of the other class
+    ("arel-r1", dict(AREL("r1", 9), k="elem")), ("rel-r2", dict(REL("r2", 9), k="elem")),
+    ("rel-r1", dict(REL("r1", 9), k="elem")), ("arel-r2", dict(AREL("r2", 9), k="elem")),
 ]
 
 
@@ -243,6 +258,9 @@ def matrix(routes, rng, full, expects=None):
                         bodies = [RB[0], RB[3]] + [(f"{lab}-json", ("val", "json", v)) for lab, v in VALUES[::3]]
                 for blab, body in bodies:
                     out.append(dict(base, body=body, cls=f"{vlab}|body:{blab}"))
+                if routed and ("ctrlchar" in vlab or "nonascii" in vlab or "nonutf8" in vlab):
+                    for acc in ACCEPTS[2:4]:
+                        out.append(dict(base, accept=acc, cls=f"{vlab}|accept:{acc[0]}"))
                 if vlab == "valid" and m == "GET" and routed:
                     for qlab, q, ql in QUERIES:
                         out.append(dict(base, query=q, qlabels=ql, cls="query:" + qlab))
@@ -263,6 +281,8 @@ def matrix(routes, rng, full, expects=None):
             r["sorted"] = True
             if any(k in ("limit", "cursor") for k, _ in r["query"]):
                 r["oracle_only"] = "reference sets are listed in hash order"
+        if r.get("path") == "r2" and r["method"] == "POST" and r["rule"].endswith("<id_short_path:id_shorts>"):
+            r["oracle_only"] = "an AnnotatedRelationshipElement is a namespace (annotations), modelled as a leaf"
         b = r["body"]
         want = (expects or {}).get(ep_of.get((r["rule"], r["method"])))
         if want and b[0] == "val" and VCLASS[b[2]["k"]] != want:
@@ -330,6 +350,37 @@ def scenarios():
             for r in reqs[2:]:
                 r["sig"] = ("local-file-" if backed else "") + "after-id-changing-put"
             out.append((f"rename-{k}-{'file' if backed else 'mem'}", backed, reqs, backed))
+    # PUT of a qualifier onto the type of another qualifier of the same object: 409 and nothing changed
+    smone = "/submodels/<base64url:submodel_id>"
+    for where, path in (("sm", None), ("elem", "p1")):
+        sm = {"k": "sm", "id": "urn:a", "ids": "S", "tok": 1, "quals": [("q1", 1), ("q2", 2)],
+              "elems": [P("p1", 1, [("q1", 3), ("q2", 4)])]}
+        base = smone + ("/submodel-elements/<id_short_path:id_shorts>" if path else "") + "/qualifiers"
+        kw = {"sm": b64("urn:a")}
+        if path:
+            kw["path"] = path
+        reqs = [rq("/submodels", "POST", ("val", "json", sm)),
+                rq(base + "/<base64url:qualifier_type>", "PUT", ("val", "json", {"k": "qual", "type": "q2", "val": 9}),
+                   qt=b64("q1"), cls="qualifier-type-conflict", **kw),
+                rq(base + "/<base64url:qualifier_type>", "GET", qt=b64("q1"), **kw),
+                rq(base, "GET", **kw),
+                rq(base + "/<base64url:qualifier_type>", "PUT", ("val", "xml", {"k": "qual", "type": "q1", "val": 7}),
+                   qt=b64("q2"), cls="qualifier-type-conflict", **kw),
+                rq(base, "GET", **kw)]
+        for backed in (False, True):
+            out.append((f"qualifier-conflict-{where}-{'file' if backed else 'mem'}", backed, [dict(r) for r in reqs], False))
+    # two File elements uploading different bytes under the same file name
+    att = smone + "/submodel-elements/<id_short_path:id_shorts>/attachment"
+    sm = {"k": "sm", "id": "urn:a", "ids": "S", "tok": 1, "quals": [], "elems": [F("f1", None), F("f2", None), F("f3", None)]}
+    reqs = [rq("/submodels", "POST", ("val", "json", sm)),
+            rq(att, "PUT", ("upload", "/aasx/same.txt", (0, 1)), sm=b64("urn:a"), path="f1", cls="same-file-name"),
+            rq(att, "PUT", ("upload", "/aasx/same.txt", (0, 2)), sm=b64("urn:a"), path="f2", cls="same-file-name"),
+            rq(att, "GET", sm=b64("urn:a"), path="f1"), rq(att, "GET", sm=b64("urn:a"), path="f2"),
+            rq(att, "DELETE", sm=b64("urn:a"), path="f1"),
+            rq(att, "GET", sm=b64("urn:a"), path="f2"), rq(att, "GET", sm=b64("urn:a"), path="f1"),
+            rq(smone + "/submodel-elements/<id_short_path:id_shorts>", "GET", sm=b64("urn:a"), path="f2")]
+    for backed in (False, True):
+        out.append((f"same-file-name-{'file' if backed else 'mem'}", backed, [dict(r) for r in reqs], False))
     # POST of an item into a SubmodelElementList on a backed store (TypeError while building the Location)
     sm = {"k": "sm", "id": "urn:a", "ids": "S", "tok": 1, "quals": [], "elems": [L("l1", [])]}
     reqs = [rq("/submodels", "POST", ("val", "json", sm)),
@@ -337,3 +388,24 @@ def scenarios():
                ("val", "json", dict(P(None, 2), k="elem")), sm=b64("urn:a"), path="l1", sig="post-into-list:local-file")]
     out.append(("post-into-list-file", True, reqs, True))
     return out
+
+
+def big_listing(n=130):
+    """a store with n concept descriptions and a submodel with n elements + requests paging through both
+    with limits below, equal to and above 100 and the listing size (for _get_slice)"""
+    objs = [{"k": "cd", "id": f"urn:cd:{i:03d}", "ids": None, "tok": i % 7} for i in range(n)]
+    objs.append({"k": "sm", "id": "urn:big", "ids": "Big", "tok": 1, "quals": [],
+                 "elems": [P(f"e{i:03d}", i % 5) for i in range(n)]})
+    reqs = []
+    for rule, kw in (("/concept-descriptions", {}), ("/submodels/<base64url:submodel_id>/submodel-elements", {"sm": b64("urn:big")})):
+        for lim in (1, 7, 50, 99, 100, 101, 120, n - 1, n, n + 1, 200, 1000):
+            cur = 0
+            pages = 0
+            while pages < 4:
+                reqs.append(dict({"rule": rule, "method": "GET", "accept": (None, "json"), "body": ("none",), "cls": "paging",
+                                  "query": [("limit", str(lim)), ("cursor", str(cur))]}, **kw))
+                cur += lim
+                pages += 1
+                if cur > n + lim:
+                    break
+    return objs, reqs
